@@ -106,7 +106,36 @@ def bytes_variant(obj):
     return res if changed[0] else None
 
 
+def render(obj, fn):
+    """as_json / as_markdown of a Serializable; for the classes that are serialised only inside a report (SSH host keys: they have
+    _asdict but are not Serializable) the same two renderings through the library's JSON hook and Markdown dispatcher"""
+    if hasattr(obj, fn):
+        return getattr(obj, fn)()
+    from cryptoparser.common.base import Serializable
+    if fn == 'as_json':
+        return json.dumps(obj)
+    return Serializable._markdown_result(obj)[1]  # pylint: disable=protected-access
+
+
 def serialisation_failures(cls, name, b, obj):
+    if not hasattr(obj, 'as_json') and hasattr(obj, '_asdict') and hasattr(obj, 'compose'):
+        # report-only classes: rendered twice, and compared with the rendering of the equal parse-compose round trip
+        for fn in ('as_json', 'as_markdown'):
+            try:
+                o2, _ = cls.parse_immutable(bytes(obj.compose()))     # taken first: rendering must not be able to disturb it
+                if not rt.same(obj, o2):
+                    o2 = None
+            except Exception:  # pylint: disable=broad-except  (round trips are C01 / C05's subject)
+                o2 = None
+            try:
+                out = render(obj, fn)
+                if render(obj, fn) != out:
+                    yield fn + '-unstable', '%s (through the report serialiser) gives a different result when called again' % fn
+                if o2 is not None and render(o2, fn) != out:
+                    yield fn + '-roundtrip', '%s differs between an object and its parse-compose round trip' % fn
+            except Exception as e:  # pylint: disable=broad-except
+                yield fn, '%s (through the report serialiser) fails with %s: %s' % (fn, type(e).__name__, str(e)[:60])
+        return
     for fn in ('as_json', 'as_markdown'):
         if not hasattr(obj, fn):
             continue
